@@ -10,7 +10,7 @@ from vf.sx.ob import Case
 
 INTS = [0, 1, -1, 127, 128, -128, -129, 255, 256, 32767, 32768, -32768, -32769, 65535, 65536,
         2 ** 31 - 1, 2 ** 31, -2 ** 31, -2 ** 31 - 1, 2 ** 32 - 1, 2 ** 32, 5, 5, -2 ** 63, 2 ** 63 - 1]
-FLOATS = [0.0, 1.0, -1.5, 0.1, 1 / 3, 1.2345e-5, 1.23456789, 123456.789, 1e6 + 0.1, -0.001, 2.5e-8, 99999.5, -13.206373, -123456.789012, -2300.000001, 0.0012, 1.5e-12, 3e-11, 0.123456789012, 3.0e6, 1e10, 7e-12]
+FLOATS = [0.0, 1.0, -1.5, 0.1, 1 / 3, 1.2345e-5, 1.23456789, 123456.789, 1e6 + 0.1, -0.001, 2.5e-8, 99999.5, -13.206373, -123456.789012, -2300.000001, 0.0012, 1.5e-12, 3e-11, 0.123456789012, 1.23456789e-12, 1e-20, 3.0e6, 1e10, 7e-12]
 TOLS = [1e-6, 1e-3, 1e-9]
 STRS = ["", "a", "abc", "a", "é", "x y", "ALA", ""]
 
